@@ -210,6 +210,10 @@ func RunScenarios(prop string, scs []Scenario) {
 			if !e.Deadline.IsZero() {
 				remain := time.Until(e.Deadline)
 				share := remain / time.Duration(len(todo)-i)
+				// a scenario may use what the later ones are unlikely to need: all but one second each
+				if alt := remain - time.Duration(len(todo)-i-1)*time.Second; alt > share {
+					share = alt
+				}
 				if ps.level == -1 {
 					// the required pass may use whatever it needs
 					share = remain
